@@ -7,7 +7,7 @@ RULE = ('three real SBufs vs three std::string models; every sequence of <= D op
         '(assign, append incl. self, literals, push_back, slices of each other, consume, chop, trim, toUpper, clear, '
         'reserveSpace, rawAppendStart/Finish, c_str, setAt) followed by one operation of the full alphabet (all of the above '
         'with positions/lengths from {0,1,2,len-1,len,len+1,npos,npos-1}, self-aliasing append/assign, consume-into, toLower, '
-        'reserveCapacity/reserve incl. maxSize+1, appendf/Printf, ...); D = 3 quick, 4 thorough; states deduplicated on the '
+        'reserveCapacity/reserve incl. maxSize+1, appendf/Printf, ...); D = 4 quick, 5 thorough (quick: reduced observer battery on leaf-level states); states deduplicated on the '
         'complete canonical state modulo permutation of the three SBufs; the const observer battery runs on every distinct state')
 ASSUME = ['libsbuf of the scratch copy of the current tree (ASan) linked with the testSBuf link set: the stub allocator gives '
           'MemBlobs exactly the requested capacity, so reallocation boundaries are reached with tiny strings and every '
